@@ -68,6 +68,15 @@ func b58Family(run *ev.Run, n int) {
 		r := rng.New(sB58 + uint64(i))
 		b, cls := genB58Payload(r)
 		c.in["payload"] = hx(b)
+		if len(b) == 0 {
+			// Base58Check carries at least a version byte; the empty payload is
+			// outside the codec's domain (CheckDecode refuses 4-byte strings).
+			// Recorded, not judged.
+			if _, err := base58.CheckDecode(base58.CheckEncode(b)); err != nil {
+				run.Obs("outside_statement_empty_base58check_payload_refused", 1)
+			}
+			return "empty", false
+		}
 		orig := append([]byte{}, b...)
 		enc := base58.CheckEncode(b)
 		if !bytes.Equal(b, orig) {
@@ -219,9 +228,10 @@ func uintFamily(run *ev.Run, n int) {
 			bw := io.NewBufBinWriter()
 			u.EncodeBinary(bw.BinWriter)
 			var u4 util.Uint160
-			br := io.NewBinReaderFromBuf(bw.Bytes())
+			wire := bw.Bytes()
+			br := io.NewBinReaderFromBuf(wire)
 			u4.DecodeBinary(br)
-			bad("binary-roundtrip", br.Err == nil && u4 == u && bytes.Equal(bw.Bytes(), b))
+			bad("binary-roundtrip", br.Err == nil && u4 == u && bytes.Equal(wire, b))
 			bad("compare-with-itself", u.Equals(u2) && u.Compare(u2) == 0 && !u.Less(u2))
 			run.Obs("uint160_inversions", 7)
 			return "160:" + cls, true
@@ -253,9 +263,10 @@ func uintFamily(run *ev.Run, n int) {
 		bw := io.NewBufBinWriter()
 		u.EncodeBinary(bw.BinWriter)
 		var u4 util.Uint256
-		br := io.NewBinReaderFromBuf(bw.Bytes())
+		wire := bw.Bytes()
+		br := io.NewBinReaderFromBuf(wire)
 		u4.DecodeBinary(br)
-		bad("binary-roundtrip", br.Err == nil && u4 == u && bytes.Equal(bw.Bytes(), b))
+		bad("binary-roundtrip", br.Err == nil && u4 == u && bytes.Equal(wire, b))
 		bad("compare-with-itself", u.Equals(u2) && u.Compare(u2) == 0)
 		run.Obs("uint256_inversions", 7)
 		return "256:" + cls, true
